@@ -34,3 +34,31 @@ func vpH_C29_Cal() {
 		vpAssert(page <= total, "inside_iff_page_le_total")
 	}
 }
+
+//vp:prop C29
+//vp:bounds none: loop-free; two consecutive page numbers, size in 1..100, n free 64-bit
+func vpH_C29_ConsecutivePagesAbut() {
+	size, page, n := vpU64("size"), vpU64("page"), vpU64("n")
+	vpAssume(size >= 1 && size <= MaxTxnPageSize && page >= 1 && page+1 != 0)
+	p1, err1 := NewPageIndex(size, page)
+	p2, err2 := NewPageIndex(size, page+1)
+	vpAssert(err1 == nil && err2 == nil, "both_pages_constructible")
+	s1, e1, t1, _ := p1.Cal(n)
+	s2, e2, t2, _ := p2.Cal(n)
+	vpAssert(t1 == t2, "page_count_independent_of_page")
+	if page == 1 && n > 0 {
+		vpAssert(s1 == 0, "first_page_starts_at_zero")
+	}
+	if page < t1 {
+		vpAssert(e1-s1 == size, "inner_page_is_full")
+		vpAssert(s2 == e1, "next_page_starts_where_this_one_ends")
+		vpAssert(e2 > s2, "next_page_non_empty")
+	}
+	if page == t1 {
+		vpAssert(e1 == n && e1 > s1, "last_page_ends_at_n_and_is_non_empty")
+		vpAssert(s2 == 0 && e2 == 0, "page_after_last_is_empty")
+	}
+	if page > t1 {
+		vpAssert(s1 == 0 && e1 == 0, "pages_beyond_are_empty")
+	}
+}
